@@ -24,7 +24,7 @@ ASSUMPTIONS = [
 ]
 
 T0 = datetime(2024, 11, 5, 20, 0, 0, tzinfo=timezone.utc)
-T = {1: T0 + timedelta(hours=1), 2: T0 + timedelta(hours=2), 3: T0 + timedelta(hours=3)}
+T = {1: T0 + timedelta(hours=1), 2: T0 + timedelta(hours=2), 3: T0 + timedelta(hours=3), 4: T0 + timedelta(hours=4)}
 EPS = timedelta(seconds=1)
 WINDOW = {
     "none": None,
@@ -36,6 +36,10 @@ WINDOW = {
     "t3": T[3],
     "t3+": T[3] + EPS,
 }
+# thorough tier: a fourth timestamp and window ends around it
+WINDOW_WIDE = dict(WINDOW, **{"t2-": T[2] - EPS, "t4": T[4], "t4+": T[4] + EPS})
+GET_WINDOWS = (("none", "none"), ("t2", "none"), ("none", "t2"), ("t1+", "t3"), ("t3+", "none"), ("t2", "t2"))
+GET_WINDOWS_WIDE = GET_WINDOWS + (("t1", "t1"), ("t1-", "t2+"), ("t2+", "t3"), ("t3", "t3+"), ("none", "t1-"), ("t1+", "t2"), ("t3", "t1"), ("t2+", "none"), ("none", "t3"), ("t1", "t3+"))
 
 
 class FakeService:
@@ -114,17 +118,25 @@ def _csv(vid):
 
 
 def bounds(tier):
-    return {"n_versions": "0..5" if tier == "quick" else "0..6", "page_sizes": "1..n+1", "windows": 64, "get_n": "<=4", "samples": [1, 2, 3], "timezones": ["America/New_York", "UTC"]}
+    if tier == "quick":
+        return {"n_versions": "0..5", "timestamps": 3, "page_sizes": "1..n+1", "windows": 64, "get_n": "<=4", "get_windows": 6, "samples": [1, 2, 3], "timezones": ["America/New_York", "UTC"]}
+    return {"n_versions": "0..7", "timestamps": 4, "page_sizes": "1..n+1", "windows": 121, "get_n": "<=5", "get_windows": 16, "get_pages": "{1,2,3,n,n+1}", "samples": [1, 2, 3, 4, 5], "timezones": ["America/New_York", "UTC"]}
 
 
 def cases(tier, seed):
     out = []
-    nmax = 5 if tier == "quick" else 6
+    nmax = 5 if tier == "quick" else 7
     for n in range(0, nmax + 1):
-        for stamps in itertools.combinations_with_replacement([3, 2, 1], n):
-            out.append({"kind": "list", "stamps": list(stamps)})
-            if n <= 4:
+        for stamps in itertools.combinations_with_replacement([3, 2, 1] if tier == "quick" else [4, 3, 2, 1], n):
+            out.append({"kind": "list", "stamps": list(stamps), "wide": tier != "quick"})
+            if n <= 4 and 4 not in stamps:
                 out.append({"kind": "get", "stamps": list(stamps)})
+            elif tier == "thorough" and n == 5 and 4 not in stamps:
+                out.append({"kind": "get", "stamps": list(stamps), "wide": True})
+    if tier == "thorough":
+        for n in range(1, 5):
+            for stamps in itertools.combinations_with_replacement([3, 2, 1], n):
+                out.append({"kind": "get", "stamps": list(stamps), "wide": True})
     out.append({"kind": "handler"})
     # the window as the public handler takes it: ISO strings, with and without explicit UTC offsets
     for off in ("+00:00", "-05:00", "+01:00", "-08:00"):
@@ -167,9 +179,10 @@ def evaluate(case):
         n = len(versions)
         contents = {v["VersionId"]: _csv(v["VersionId"]) for v in versions}
     if case["kind"] == "list":
+        win = WINDOW_WIDE if case.get("wide") else WINDOW
         for page in range(1, n + 2):
-            for sk, start in WINDOW.items():
-                for ek, end in WINDOW.items():
+            for sk, start in win.items():
+                for ek, end in win.items():
                     u = _util(s3mod, versions, page, start, end, "UTC")
                     try:
                         got = u.list_versions("root/x/current.csv")
@@ -197,11 +210,11 @@ def evaluate(case):
                         cov["inverted_window"] += 1
         cov["list_executions"] += runs
     elif case["kind"] == "get":
-        for page in (1, 2, n + 1):
-            for sk, ek in (("none", "none"), ("t2", "none"), ("none", "t2"), ("t1+", "t3"), ("t3+", "none"), ("t2", "t2")):
+        for page in (1, 2, n + 1) if not case.get("wide") else sorted({1, 2, 3, n, n + 1} - {0}):
+            for sk, ek in GET_WINDOWS_WIDE if case.get("wide") else GET_WINDOWS:
                 start, end = WINDOW[sk], WINDOW[ek]
                 exp = _ref_window(versions, start, end)
-                for sample in (1, 2, 3):
+                for sample in (1, 2, 3) if not case.get("wide") else (1, 2, 3, 4, 5):
                     sampled = exp[::sample]
                     ids = [v["VersionId"] for v in sampled]
                     for r in range(len(ids) + 1):
